@@ -15,7 +15,7 @@ import (
 
 // C17: accepted configurations are closed under references and round-trip.
 
-var c17Nasty = []string{"yes", "no", "null", "~", "0x1F", "1e3", "a: b", "#x", " lead", "trail ", "日本語", "tab\tx", "q\"uote", "'single'", "- dash", "[x]", "{y}", "a,b", "%41", "on", "!!str", "|", ">", "@at", "`bt`", "multi\nline", "", "0", "-1", "3.14", "true"}
+var c17Nasty = []string{"$HOME", "${PATH}", "a${b", "c}d", "cost$", "${", "$$", "yes", "no", "null", "~", "0x1F", "1e3", "a: b", "#x", " lead", "trail ", "日本語", "tab\tx", "q\"uote", "'single'", "- dash", "[x]", "{y}", "a,b", "%41", "on", "!!str", "|", ">", "@at", "`bt`", "multi\nline", "", "0", "-1", "3.14", "true"}
 
 func nastyName(rnd *rand.Rand) string {
 	for {
